@@ -806,7 +806,7 @@ func lemmaCreateThenMapQueue(data []byte, cap uint32) {
 // wfMem: the shared-memory headers of the chain elements spell out exactly that chain (links, cleared sizes)
 //@ pure wfGhost(b *bufferList): bool = listWords(b) && b.n >= 1 && *b.size == b.n && *b.capPerBuffer >= 1 && *b.capPerBuffer + 20 < 4294967296 && b.gstride == *b.capPerBuffer + 20
 //@ |  && *b.head == b.chain[b.cs] && *b.tail == b.chain[b.cs + b.n - 1]
-//@ |  && (forall i in [b.cs, b.cs + b.n) trig(b.chain[i]): b.valid[b.chain[i]] && !b.held[b.chain[i]] && b.pos[b.chain[i]] == i)
+//@ |  && (forall i in [b.cs, b.cs + b.n) trig(b.chain[i]): b.valid[b.chain[i]] && !b.held[b.chain[i]] && b.pos[b.chain[i]] == i && 0 <= b.chain[i] && b.chain[i] + b.gstride <= len(b.bufferRegion))
 //@ |  && (forall o in [0, len(b.bufferRegion)) trig(b.valid[o]): b.valid[o] ==> o + stride(b) <= len(b.bufferRegion) && (b.held[o] || (b.cs <= b.pos[o] && b.pos[o] < b.cs + b.n && b.chain[b.pos[o]] == o)))
 //@ |  && (forall o1 in [0, len(b.bufferRegion)) trig(b.valid[o1]): forall o2 in [0, len(b.bufferRegion)) trig(b.valid[o2]): b.valid[o1] && b.valid[o2] && o1 != o2 ==> o1 + stride(b) <= o2 || o2 + stride(b) <= o1)
 //@ |  && (forall o in [0 - 4294967296, 0) trig(b.valid[o]): !b.valid[o]) && (forall o in [len(b.bufferRegion), 8589934592) trig(b.valid[o]): !b.valid[o])
@@ -874,13 +874,22 @@ func lemmaCreateThenMapQueue(data []byte, cap uint32) {
 //@   ensures[C01,C02] b.chain == store(old(b.chain), old(b.cs + b.n), old(slotOf(b, buffer))) && b.held == store(old(b.held), old(slotOf(b, buffer)), false)
 //@   ensures[C01,C02] forall x in [0, len(b.bufferRegion)): (x < old(slotOf(b, buffer)) + 4 || x >= old(slotOf(b, buffer)) + 20) && (x < old(*b.tail) + 12 || x >= old(*b.tail) + 17) ==> mem8(b.bufferRegion, x) == old(mem8(b.bufferRegion, x))
 //@   ensures[C01,C02] wfGhost(b)
-//@   ensures[OPEN] wfMem(b)   // generated but not discharged within the time limit: see DESIGN (open obligation O1)
-//@   loop 0 invariant[C01,C02] *b.size == old(*b.size) && *b.head == old(*b.head) && *b.tail == old(*b.tail) && *b.counter == old(*b.counter) && *b.capPerBuffer == old(*b.capPerBuffer)
-//@   loop 0 invariant[C01,C02] b.n == old(b.n) && b.cs == old(b.cs) && b.held == old(b.held) && b.chain == old(b.chain) && b.pos == old(b.pos) && b.valid == old(b.valid) && b.gstride == old(b.gstride)
-//@   loop 0 invariant[C01,C02] buffer.offsetInShm == old(buffer.offsetInShm) && buffer.bufferHeader == old(buffer.bufferHeader)
-//@   loop 0 invariant[C01,C02] mem32(b.bufferRegion, slotOf(b, buffer) + 4) == 0 && mem32(b.bufferRegion, slotOf(b, buffer) + 8) == 0 && mem8(b.bufferRegion, slotOf(b, buffer) + 16) == 0
-//@   loop 0 invariant[C01,C02] forall x in [0, len(b.bufferRegion)): (x < old(slotOf(b, buffer)) + 4 || x >= old(slotOf(b, buffer)) + 20) ==> mem8(b.bufferRegion, x) == old(mem8(b.bufferRegion, x))
-//@   loop 0 modifies[C01,C02] *b.tail
+// variant push@mem: wfMem is re-established. The variant assumes only the cut formulas below (each is proved
+// at entry from wfList in the main run), which keeps the partition quantifiers of wfGhost out of the context.
+//@   cut[C01@mem,C02@mem] listWords(b) && b.n >= 1 && b.gstride >= 21 && b.gstride == *b.capPerBuffer + 20 && *b.tail == b.chain[b.cs + b.n - 1] && wfMem(b)
+//@   cut[C01@mem,C02@mem] buffer != nil && buffer.bufferHeader != nil && sameMem(buffer.bufferHeader, b.bufferRegion, slotOf(b, buffer)) && len(buffer.bufferHeader) >= 20 && sameMem(buffer.data, b.bufferRegion, slotOf(b, buffer) + 20)
+//@   cut[C01@mem,C02@mem] 0 <= slotOf(b, buffer) && slotOf(b, buffer) + b.gstride <= len(b.bufferRegion) && 0 <= b.chain[b.cs + b.n - 1] && b.chain[b.cs + b.n - 1] + b.gstride <= len(b.bufferRegion)
+//@   cut[C01@mem,C02@mem] b.chain[b.cs + b.n - 1] + b.gstride <= slotOf(b, buffer) || slotOf(b, buffer) + b.gstride <= b.chain[b.cs + b.n - 1]
+//@   cut[C01@mem,C02@mem] forall i in [b.cs, b.cs + b.n) trig(b.chain[i]): 0 <= b.chain[i] && b.chain[i] + b.gstride <= len(b.bufferRegion) && (b.chain[i] + b.gstride <= slotOf(b, buffer) || slotOf(b, buffer) + b.gstride <= b.chain[i])
+//@   cut[C01@mem,C02@mem] forall i in [b.cs, b.cs + b.n - 1) trig(b.chain[i]): b.chain[i] + b.gstride <= b.chain[b.cs + b.n - 1] || b.chain[b.cs + b.n - 1] + b.gstride <= b.chain[i]
+//@   cut[C01@mem,C02@mem] forall v in [0, len(b.bufferRegion)) trig(b.valid[v]): b.valid[v] ==> (v == slotOf(b, buffer) || v + b.gstride <= slotOf(b, buffer) || slotOf(b, buffer) + b.gstride <= v) && (v == b.chain[b.cs + b.n - 1] || v + b.gstride <= b.chain[b.cs + b.n - 1] || b.chain[b.cs + b.n - 1] + b.gstride <= v)
+//@   ensures[C01@mem,C02@mem] wfMem(b)
+//@   loop 0 invariant[C01,C02,C01@mem,C02@mem] *b.size == old(*b.size) && *b.head == old(*b.head) && *b.tail == old(*b.tail) && *b.counter == old(*b.counter) && *b.capPerBuffer == old(*b.capPerBuffer)
+//@   loop 0 invariant[C01,C02,C01@mem,C02@mem] b.n == old(b.n) && b.cs == old(b.cs) && b.held == old(b.held) && b.chain == old(b.chain) && b.pos == old(b.pos) && b.valid == old(b.valid) && b.gstride == old(b.gstride)
+//@   loop 0 invariant[C01,C02,C01@mem,C02@mem] buffer.offsetInShm == old(buffer.offsetInShm) && buffer.bufferHeader == old(buffer.bufferHeader)
+//@   loop 0 invariant[C01,C02,C01@mem,C02@mem] mem32(b.bufferRegion, slotOf(b, buffer) + 4) == 0 && mem32(b.bufferRegion, slotOf(b, buffer) + 8) == 0 && mem8(b.bufferRegion, slotOf(b, buffer) + 16) == 0
+//@   loop 0 invariant[C01,C02,C01@mem,C02@mem] forall x in [0, len(b.bufferRegion)): (x < old(slotOf(b, buffer)) + 4 || x >= old(slotOf(b, buffer)) + 20) ==> mem8(b.bufferRegion, x) == old(mem8(b.bufferRegion, x))
+//@   loop 0 modifies[C01,C02,C01@mem,C02@mem] *b.tail
 
 // ---------------------------------------------------------------------------
 // C10: stream close is final, propagates, reported at most once (stream.go)
